@@ -100,7 +100,8 @@ func (b *builder) genConfigs() {
 	}
 	// (the last three are other spellings of directories already in the list)
 	dirs := []string{"__snapshots__", "snaps_dir", "nested/deep/__snapshots__", "/abs/snapdir", "../up/__snapshots__", ".snapshots", "__snaps[v2]__",
-		"./__snapshots__", "nested/../snaps_dir", scen.NominalDir + "/__snapshots__"}
+		"./__snapshots__", "nested/../snaps_dir", scen.NominalDir + "/__snapshots__",
+		"linked_snaps"} // (a symbolic link to another directory, see World)
 	names := []string{"shared", "custom_name", "zz_world_a_test", "my.snap.file", "data"}
 	exts := []string{".txt", ".json", ".snap", ".yaml", ""}
 	for i := 0; i < n; i++ {
@@ -768,6 +769,13 @@ func World(seed uint64, index int, p *Params) *check.World {
 	b := &builder{r: r, p: p, solo: map[string]bool{}}
 	b.genConfigs()
 	w := &check.World{Prop: p.Prop, Family: p.Family, Seed: seed, Index: index, Config: p.Config}
+	for _, c := range b.cfgs {
+		if c.Dir != nil && *c.Dir == "linked_snaps" {
+			// the snapshot directory is a symbolic link (a shared folder mounted into the package)
+			w.Pre = append(w.Pre, check.PreFile{Path: scen.NominalDir + "/linked_snaps", Link: "store_real", IsDir: true})
+			break
+		}
+	}
 	if r.Bool(p.PreFilesP) {
 		dirs := []string{scen.NominalDir + "/__snapshots__", scen.NominalDir + "/snaps_dir", scen.NominalDir + "/elsewhere/__snapshots__"}
 		d := dirs[r.Intn(len(dirs))]
